@@ -1465,6 +1465,9 @@ def arg_reduction(x, /, arg_func, axis=None, *, keepdims=False, split_every=None
     dtype = nxp.__array_namespace_info__().default_dtypes(device=x.device)["indexing"]
     intermediate_dtype = [("i", dtype), ("v", x.dtype)]
 
+    # a negative axis would not match any dimension below, leaving full-size chunks declared
+    axis = validate_axis(axis, x.ndim)
+
     # initial map does arg reduction on each block, and uses block id to find the absolute index within whole array
     chunks = tuple((1,) * len(c) if i == axis else c for i, c in enumerate(x.chunks))
     out = map_blocks(
@@ -1526,6 +1529,9 @@ def nanarg_reduction(x, /, arg_func, axis=None, *, keepdims=False, split_every=N
     """A reduction that returns the array indexes, not the values, and which raises for all-NaN slices."""
     dtype = nxp.__array_namespace_info__().default_dtypes(device=x.device)["indexing"]
     intermediate_dtype = [("i", dtype), ("v", x.dtype)]
+
+    # a negative axis would not match any dimension below, leaving full-size chunks declared
+    axis = validate_axis(axis, x.ndim)
 
     # initial map does arg reduction on each block, and uses block id to find the absolute index within whole array
     chunks = tuple((1,) * len(c) if i == axis else c for i, c in enumerate(x.chunks))
